@@ -151,10 +151,21 @@ func preReleaseTable(e *Env, rule string) map[string]string {
 	site := flow.FnName(dcp)
 	// uninterpreted: every in-repo callee of DefaultComparePreRelease that receives both operands
 	sums := map[string]pred.Summary{}
+	// (one name per callee: the first is "cPR", the scan; a second function on another branch is a different term, and
+	// the sign argument of C14.swap no longer goes through)
+	names := map[*ssa.Function]string{}
 	for _, call := range e.C.Calls(dcp, flow.InRepo) {
 		callee := e.C.StaticCallee(&call.Call)
+		o := flow.Origin(callee)
+		if _, ok := names[o]; !ok {
+			names[o] = "cPR"
+			if len(names) > 1 {
+				names[o] = "cPR·" + o.Name()
+			}
+		}
+		name := names[o]
 		sums[callee.String()] = func(ev *pred.Evaluator, args []pred.Val) (pred.Val, error) {
-			return pred.Term{Fn: "cPR", Args: args}, nil
+			return pred.Term{Fn: name, Args: args}, nil
 		}
 	}
 	table := map[string]string{}
@@ -642,7 +653,27 @@ func ruleC06Scan(e *Env, rule string) {
 				bad, badAt = "the remainders compared at the first difference are not the two operands cut at one common index up to their ends", b
 			}
 		default:
-			bad, badAt = "a return is reachable neither from the first difference nor from the end of the scan", b
+			// a fast path: identical operands compare as 0 before any scanning
+			fast := false
+			if k, isK := flow.ConstInt(vals[0]); isK && k == 0 {
+				for _, g := range fn.Blocks {
+					iff, ok := g.Instrs[len(g.Instrs)-1].(*ssa.If)
+					if !ok {
+						continue
+					}
+					cmp, ok := iff.Cond.(*ssa.BinOp)
+					if !ok || cmp.Op != token.EQL {
+						continue
+					}
+					px, py := whole(cmp.X), whole(cmp.Y)
+					if px != nil && py != nil && px != py && len(g.Succs[0].Preds) == 1 && (g.Succs[0] == b || g.Succs[0].Dominates(b)) {
+						fast = true
+					}
+				}
+			}
+			if !fast {
+				bad, badAt = "a return is reachable neither from the first difference nor from the end of the scan", b
+			}
 		}
 	}
 	switch {
